@@ -94,13 +94,14 @@ Record lrep := mk_lrep {
   l_st : rep;
   l_height : N;                       (* height of the only head; 0 = no head yet *)
   l_next : bid;                       (* next fresh block id *)
-  l_lastf : option (dcontent * bid);  (* content and block id of the last publish that failed since the last success:
-                                         the same content over the same heads is the same block *)
+  l_lastf : list (dcontent * bid);    (* content and block id of every publish that failed since the last success, newest
+                                         first: the heads did not move, and the same content over the same heads is the
+                                         same block (pin A fails, unpin fails, pin A again: the block of the first attempt) *)
   l_cur : option dcontent }.          (* curDelta of the batch (nil after a successful publish) *)
-Definition linit := mk_lrep rempty 0 1 None None.
+Definition linit := mk_lrep rempty 0 1 [] None.
 
 Definition pub_id (l : lrep) (dc : dcontent) : bid :=
-  match l_lastf l with Some (dc', id) => if dc_eqb dc dc' then id else l_next l | None => l_next l end.
+  match find (fun x => dc_eqb dc (fst x)) (l_lastf l) with Some x => snd x | None => l_next l end.
 
 (* can this outcome happen for this delta? putTombs / putElems return early on an empty list, heads.Replace is used
    only when there is a head to replace *)
@@ -118,10 +119,10 @@ Definition publish (l : lrep) (dc : dcontent) (p : pres) : lrep * list hook :=
   let nxt := if id =? l_next l then l_next l + 1 else l_next l in
   let r := l_st l in
   match p with
-  | POk => (mk_lrep (merge r d) (l_height l + 1) nxt None (l_cur l), merge_hooks r d)
-  | PFailHeads => (mk_lrep (merge r d) (l_height l) nxt (Some (dc, id)) (l_cur l), merge_hooks r d)
-  | PFailTombs => (mk_lrep r (l_height l) nxt (Some (dc, id)) (l_cur l), del_hooks d)        (* hooks run before the commit *)
-  | PFailElems => (mk_lrep (put_tombs r d) (l_height l) nxt (Some (dc, id)) (l_cur l), merge_hooks r d)
+  | POk => (mk_lrep (merge r d) (l_height l + 1) nxt [] (l_cur l), merge_hooks r d)
+  | PFailHeads => (mk_lrep (merge r d) (l_height l) nxt ((dc, id) :: l_lastf l) (l_cur l), merge_hooks r d)
+  | PFailTombs => (mk_lrep r (l_height l) nxt ((dc, id) :: l_lastf l) (l_cur l), del_hooks d)        (* hooks run before the commit *)
+  | PFailElems => (mk_lrep (put_tombs r d) (l_height l) nxt ((dc, id) :: l_lastf l) (l_cur l), merge_hooks r d)
   end.
 
 Definition pres_ok (p : pres) : bool := match p with POk => true | _ => false end.
